@@ -15,7 +15,7 @@ ROWS, COLS, NNZ = F(P(0), "rows"), F(P(0), "cols"), F(P(0), "nonzero")
 VAL, RI, CS = F(P(0), "val"), F(P(0), "row_index"), F(P(0), "col_start")
 
 
-def csc_walk(ctx, loops):
+def csc_walk(ctx, loops, pdb=None):
     """Recognise `for j in 0..cols { for k in col_start[j]..col_start[j+1] {` ; return (j, k) or None."""
     if len(loops) < 2:
         return None
@@ -23,7 +23,12 @@ def csc_walk(ctx, loops):
     if o is None or i is None:
         return None
     j, k = o[0], i[0]
-    if o[1] != num(0) or o[2] != COLS or o[3] or o[4]:
+    hi_ok = o[2] == COLS
+    if not hi_ok and pdb is not None:
+        # the column loop runs over a vector whose length a guard has tied to cols (`for (j, xj) in x.iter().enumerate()`)
+        from .common import same_dim
+        hi_ok = same_dim(pdb, ctx, loops[0], o[2], COLS)
+    if o[1] != num(0) or not hi_ok or o[3] or o[4]:
         return None
     if i[1] != ("idx", CS, j) or i[2] != ("idx", CS, lin_add(j, num(1))) or i[3] or i[4]:
         return None
@@ -59,7 +64,7 @@ def check_walks(rep, pdb, names, key="csc-walk"):
         effs = [e for e in effects(pdb, ctx) if len(e.loops) >= 2 and e.kind in ("upd", "set", "push")]
         n = 0
         for e in effs:
-            w = csc_walk(ctx, e.loops)
+            w = csc_walk(ctx, e.loops, pdb)
             n += 1
             kk = "%s/%s#%d" % (key, name, n)
             if w is None:
@@ -199,8 +204,16 @@ def rule_construction(rep, pdb):
             oks = len(sorts) == 1 and sorts[0]["name"] in ("sort_by_key", "sort_unstable_by_key", "sort_by_cached_key") and ctx.term(sorts[0]["recv"]) == P(2)
             if oks:
                 cl = strip(sorts[0]["args"][0])
-                oks = cl.get("k") == "Closure" and len(cl["params"]) == 1 and cl["params"][0].get("k") == "Bind" and \
-                    ctx.term(cl["body"]) == ("field", ("var", cl["params"][0]["v"]), "1") and _pos(sorts[0]) < _pos(lp)
+                par = cl["params"][0] if cl.get("k") == "Closure" and len(cl.get("params", [])) == 1 else None
+                key_is_col = False
+                if par is not None and par.get("k") == "Bind":
+                    key_is_col = ctx.term(cl["body"]) == ("field", ("var", par["v"]), "1")
+                elif par is not None:
+                    q_ = par["p"] if par.get("k") == "Ref" else par          # |&( _, col, _ )| col
+                    if q_.get("k") == "Tuple" and len(q_.get("ps", [])) == 3 and q_["ps"][1].get("k") == "Bind":
+                        b_ = strip(cl["body"])
+                        key_is_col = b_.get("k") == "Local" and b_.get("v") == q_["ps"][1]["v"]
+                oks = key_is_col and _pos(sorts[0]) < _pos(lp)
             rep.add("lengths/from_triplets-sort", "triplets are sorted by column (a *_by_key sort on component .1; stability is not needed for duplicate-free input) before they are drained", oks, sorts[0] if sorts else fn["body"], "")
         rep.add("lengths/from_triplets", rule, ok, fn["body"], det, where=loc(fn["body"]))
     # ---- col_start_from_index
